@@ -109,6 +109,11 @@ func c05Scenarios(tier string) []*Scenario {
 				}
 			}
 		}
+		// Trailer() / Header() right after a receive reported the cancellation, while the stream is still
+		// completing in the background; and a client that never receives what the handler sent
+		add(tr, "cancel", false, RPC{Kind: "bd", Client: []string{"S0", "C", "R*", "T", "R", "T"}, Handler: []string{"r*", "w", "ret:ctx"}}, "")
+		add(tr, "cancel", false, RPC{Kind: "ss", Client: []string{"S0", "C", "R", "T", "R*", "H"}, Client2: []string{"T"}, Handler: []string{"r", "s0", "w", "ret:ctx"}}, "")
+		add(tr, "cancel", false, RPC{Kind: "bd", Client: []string{"S0", "S1", "C"}, Handler: []string{"r", "s0", "s1", "w", "ret:ctx"}}, "")
 		// Header() parked while the context ends before any response header, and issued afterwards
 		add(tr, "cancel", false, RPC{Kind: "ss", Client: []string{"S0", "C", "R*", "H"}, Client2: []string{"H"}, Handler: []string{"r", "w", "ret:ctx"}}, "")
 		add(tr, "cancel", false, RPC{Kind: "bd", Client: []string{"S0", "C", "H", "R*"}, Handler: []string{"r*", "w", "ret:ctx"}}, "")
